@@ -52,6 +52,7 @@ type LnCall struct {
 	Msat    uint64 // amount attempted (msat)
 	MaxFee  uint64 // fee limit handed to the backend (sat)
 	Answer  string
+	Thread  int // scheduler thread that made the call (0 = not under the scheduler)
 }
 
 // ScriptedLN implements lightning.Client. Incoming side (invoices) is persistent state driven by
@@ -121,7 +122,7 @@ func (l *ScriptedLN) CreateInvoice(amount uint64) (lightning.Invoice, error) {
 	l.mu.Lock()
 	defer l.mu.Unlock()
 	if l.takeFail("CreateInvoice") {
-		l.Calls = append(l.Calls, LnCall{Kind: "CreateInvoice", Hash: -1, Answer: "err"})
+		l.Calls = append(l.Calls, LnCall{Thread: l.gate.current(), Kind: "CreateInvoice", Hash: -1, Answer: "err"})
 		return lightning.Invoice{}, errors.New("scripted: cannot create invoice")
 	}
 	// the scripted backend accepts ANY amount (C16 quantifies over amounts near 2^63 and 2^64): amounts that
@@ -137,10 +138,10 @@ func (l *ScriptedLN) CreateInvoice(amount uint64) (lightning.Invoice, error) {
 		li.huge = true // the invoice text carries a token 1000 msat: ledger monitors skip histories where it is paid
 	}
 	if err != nil {
-		l.Calls = append(l.Calls, LnCall{Kind: "CreateInvoice", Hash: -1, Answer: "err-encode"})
+		l.Calls = append(l.Calls, LnCall{Thread: l.gate.current(), Kind: "CreateInvoice", Hash: -1, Answer: "err-encode"})
 		return lightning.Invoice{}, err
 	}
-	l.Calls = append(l.Calls, LnCall{Kind: "CreateInvoice", Hash: li.id, Msat: li.msat, Answer: "ok"})
+	l.Calls = append(l.Calls, LnCall{Thread: l.gate.current(), Kind: "CreateInvoice", Hash: li.id, Msat: li.msat, Answer: "ok"})
 	return lightning.Invoice{PaymentRequest: li.request, PaymentHash: li.hash, Amount: amount, Expiry: 3600}, nil
 }
 
@@ -154,7 +155,7 @@ func (l *ScriptedLN) InvoiceStatus(hash string) (lightning.Invoice, error) {
 		id = li.id
 	}
 	if l.takeFail("InvoiceStatus") || li == nil {
-		l.Calls = append(l.Calls, LnCall{Kind: "InvoiceStatus", Hash: id, Answer: "err"})
+		l.Calls = append(l.Calls, LnCall{Thread: l.gate.current(), Kind: "InvoiceStatus", Hash: id, Answer: "err"})
 		return lightning.Invoice{}, errors.New("scripted: invoice status unavailable")
 	}
 	ans := "unsettled"
@@ -164,7 +165,7 @@ func (l *ScriptedLN) InvoiceStatus(hash string) (lightning.Invoice, error) {
 	if li.settled {
 		ans = "settled"
 	}
-	l.Calls = append(l.Calls, LnCall{Kind: "InvoiceStatus", Hash: id, Answer: ans})
+	l.Calls = append(l.Calls, LnCall{Thread: l.gate.current(), Kind: "InvoiceStatus", Hash: id, Answer: ans})
 	return inv, nil
 }
 
@@ -194,7 +195,7 @@ func (l *ScriptedLN) pay(kind, request string, msat, maxFee uint64) (lightning.P
 		}
 	}
 	a := l.nextAnswer()
-	l.Calls = append(l.Calls, LnCall{Kind: kind, Hash: id, Msat: msat, MaxFee: maxFee, Answer: a})
+	l.Calls = append(l.Calls, LnCall{Thread: l.gate.current(), Kind: kind, Hash: id, Msat: msat, MaxFee: maxFee, Answer: a})
 	switch a {
 	case "succ":
 		return lightning.PaymentStatus{Preimage: pre, PaymentStatus: lightning.Succeeded}, nil
@@ -231,7 +232,7 @@ func (l *ScriptedLN) OutgoingPaymentStatus(ctx context.Context, hash string) (li
 		pre = li.preimage
 	}
 	a := l.nextAnswer()
-	l.Calls = append(l.Calls, LnCall{Kind: "OutgoingPaymentStatus", Hash: id, Answer: a})
+	l.Calls = append(l.Calls, LnCall{Thread: l.gate.current(), Kind: "OutgoingPaymentStatus", Hash: id, Answer: a})
 	switch a {
 	case "succ":
 		return lightning.PaymentStatus{Preimage: pre, PaymentStatus: lightning.Succeeded}, nil
@@ -306,21 +307,56 @@ func (l *ScriptedLN) Notify(hash string) int {
 type Gate struct {
 	mu      sync.Mutex
 	enabled bool
-	// per goroutine-id control is by "thread name" carried in a goroutine-local lookup: the harness
-	// registers the current thread name before invoking the operation through runThread.
+	// per goroutine-id control: the harness registers a goroutine for the duration of the operation it runs.
 	threads map[int64]*gthread
+	// catchAll: an unregistered goroutine arriving at the gate (the mint's invoice watcher) is adopted as a new
+	// thread and announced on adopt.
+	catchAll bool
+	adopt    chan *gthread
 }
 
 type gthread struct {
+	id      int
+	gid     int64
 	name    string
-	arrive  chan string   // proxy -> scheduler: "I am about to do <label>"
-	release chan gateCmd  // scheduler -> proxy
+	arrive  chan string  // proxy -> scheduler: "I am about to do <label>" / "done"
+	release chan gateCmd // scheduler -> proxy
 	steps   int
+	bg      bool // adopted goroutine: ends by exiting, never says "done"
 }
 
 type gateCmd struct {
 	fault bool // return an injected error instead of performing the call
 	park  bool // never return (crash): the goroutine is abandoned
+}
+
+func (g *Gate) register(t *gthread) {
+	g.mu.Lock()
+	t.gid = goid()
+	g.threads[t.gid] = t
+	g.mu.Unlock()
+}
+
+func (g *Gate) unregister() {
+	g.mu.Lock()
+	delete(g.threads, goid())
+	g.mu.Unlock()
+}
+
+// current returns the scheduler thread id of the calling goroutine (0 if none).
+func (g *Gate) current() int {
+	if g == nil {
+		return 0
+	}
+	g.mu.Lock()
+	defer g.mu.Unlock()
+	if !g.enabled {
+		return 0
+	}
+	if t := g.threads[goid()]; t != nil {
+		return t.id
+	}
+	return 0
 }
 
 func (g *Gate) wait(label string) gateCmd {
@@ -332,8 +368,16 @@ func (g *Gate) wait(label string) gateCmd {
 		g.mu.Unlock()
 		return gateCmd{}
 	}
-	t := g.threads[goid()]
-	g.mu.Unlock()
+	id := goid()
+	t := g.threads[id]
+	if t == nil && g.catchAll {
+		t = &gthread{id: -1, gid: id, name: "bg", arrive: make(chan string), release: make(chan gateCmd), bg: true}
+		g.threads[id] = t
+		g.mu.Unlock()
+		g.adopt <- t
+	} else {
+		g.mu.Unlock()
+	}
 	if t == nil {
 		return gateCmd{}
 	}
@@ -586,7 +630,7 @@ func NewMintEnv(c *Ctx, name string, opts MintOpts) (*MintEnv, error) {
 		return nil, err
 	}
 	e := &MintEnv{Dir: dir, Opts: opts, rng: c.Rng.Fork(), ksIdx: map[string]int{}, mintQ: map[string]int{}, meltQ: map[string]int{}}
-	e.Gate = &Gate{threads: map[int64]*gthread{}}
+	e.Gate = &Gate{threads: map[int64]*gthread{}, adopt: make(chan *gthread, 16)}
 	e.LN = NewScriptedLN(e.rng.Fork(), opts.FeePct)
 	e.LN.gate = e.Gate
 	if err := e.load(opts.Rotate); err != nil {
@@ -653,6 +697,10 @@ func (e *MintEnv) Crash() error {
 	// the sqlite handle of the abandoned instance is closed so the file can be reopened; parked
 	// goroutines never touch it again (they block inside the gate forever).
 	e.DB.inner.Close()
+	// the watchers died with the process
+	e.LN.mu.Lock()
+	e.LN.subs = map[string][]chan lightning.Invoice{}
+	e.LN.mu.Unlock()
 	return e.load(false)
 }
 
